@@ -14,9 +14,69 @@ class Unsat(Exception):
 
 def solve(clauses, nvars=None, order=None, phase=False, assumptions=()):
     """Return a total model as list of signed ints (index i -> var i+1) or None."""
+    if _C is not None and not assumptions:
+        return _c_solve(clauses, nvars, order, phase)
     for m in _search(clauses, nvars, order, phase, assumptions, None):
         return m
     return None
+
+
+def solve_py(clauses, nvars=None, order=None, phase=False, assumptions=()):
+    """The pure-Python procedure (reference for the C build's self test)."""
+    for m in _search(clauses, nvars, order, phase, assumptions, None):
+        return m
+    return None
+
+
+def _load_c():
+    import ctypes
+    import os
+
+    path = os.path.join(os.path.dirname(os.path.dirname(os.path.abspath(__file__))), 'build', 'libvsat.so')
+    if os.environ.get('VMC_NO_C') or not os.path.exists(path):
+        return None
+    try:
+        lib = ctypes.CDLL(path)
+        lib.vsat_solve.restype = ctypes.c_int
+        lib.vsat_solve.argtypes = [ctypes.c_int, ctypes.c_int, ctypes.POINTER(ctypes.c_int), ctypes.POINTER(ctypes.c_int),
+                                   ctypes.c_int, ctypes.POINTER(ctypes.c_int)]
+        return lib
+    except OSError:
+        return None
+
+
+_C = _load_c()
+
+
+def _c_solve(clauses, nvars, order, phase):
+    import ctypes
+
+    flat = []
+    mx = 0
+    for c in clauses:
+        for l in c:
+            flat.append(l)
+            if l > mx:
+                mx = l
+            elif -l > mx:
+                mx = -l
+        flat.append(0)
+    if nvars is None or nvars < mx:
+        nvars = mx
+    arr = (ctypes.c_int * len(flat))(*flat)
+    out = (ctypes.c_int * max(nvars, 1))()
+    if order is not None:
+        o = [v for v in order if 1 <= v <= nvars]
+        o = o + [0] * (nvars - len(o))
+        oarr = (ctypes.c_int * max(nvars, 1))(*o[:nvars]) if nvars else None
+    else:
+        oarr = None
+    r = _C.vsat_solve(nvars, len(clauses), arr, oarr, 1 if phase else 0, out)
+    if r == 1:
+        return list(out[:nvars])
+    if r == 0:
+        return None
+    raise MemoryError('vsat C solver')
 
 
 def _search(clauses, nvars, order, phase, assumptions, proj):
